@@ -9,7 +9,7 @@ from .. import common, pipeline, reflex
 
 ID = "C06"
 LEVEL = "fault_enumeration"
-RULE = ("6 valid base modules x every character offset outside comments and outside the interior of quoted/bracket "
+RULE = ("7 valid base modules (one of them without any doccomment or documentable command) x every character offset outside comments and outside the interior of quoted/bracket "
         "arguments x 10 fault kinds (stray quote, backslash+alnum, backslash at EOF, unterminated '#[[' / '#[=[', extra "
         "'(' / ')', deleted '(' / ')', bare word), singly and (thorough) in pairs; a mutant is judged only if the "
         "reference tokenizer rejects it and - wherever CMake can see the fault - cmake itself rejects it too.  Oracle: "
@@ -22,6 +22,7 @@ BASES = {
     "class_member": "cpp_class(K Base)\n  #[[[\n  # attr\n  #]]\n  cpp_attr(K color red)\n  cpp_member(run K int)\n  function(\"${run}\" self n)\n    set(x ${n})\n  endfunction()\ncpp_end_class()\n",
     "test_section": "ct_add_test(NAME t1)\nfunction(${t1})\n  ct_add_section(NAME s1 EXPECTFAIL)\n  function(${s1})\n    message(FATAL_ERROR boom)\n  endfunction()\nendfunction()\n",
     "argument_forms": "#[[[\n# forms\n#]]\nset(V a\;b \"q \\\"x\\\" ;\" [[br ack]] [=[l1]]]=] (c (d)) ${r}/p -Dk=v)\nif(NOT (A AND B))\nendif()\n",
+    "plain_commands": "set(V 1)\nif(V)\n  message(STATUS \"v is ${V}\")\nendif()\nforeach(i a b)\n  list(APPEND L ${i})\nendforeach()\n",
     "no_final_newline": "# leading comment\noption(OPT \"help\" ON)\nmacro(m x)\nendmacro()\n#[[ block ]]\nadd_test(NAME n COMMAND c)",
 }
 
@@ -98,6 +99,24 @@ def judge_mutant(job, use_cmake=True):
     if r["page"] is not None:
         msgs.append(f"silent: {kind} at offset {pos} of {name} ({why}): Documenter.process() returned a page "
                     f"({len(r['page'])} chars) instead of failing")
+    else:
+        # the same under a logging configuration in which DEBUG records are formatted (a handler at DEBUG level)
+        import io
+        import logging
+        h = logging.StreamHandler(io.StringIO())
+        h.setLevel(logging.DEBUG)
+        lg = logging.getLogger("cminx")
+        old = lg.level
+        lg.addHandler(h)
+        lg.setLevel(logging.DEBUG)
+        try:
+            r2 = pipeline.document_text(text)
+        finally:
+            lg.removeHandler(h)
+            lg.setLevel(old)
+        if r2["page"] is not None:
+            msgs.append(f"silent: {kind} at offset {pos} of {name} ({why}): with a DEBUG logging handler "
+                        f"Documenter.process() returned a page instead of failing")
     return {"viol": msgs, "obs": common.digest(r["error"] or r["page"]), "nt": common.digest(text), "n": 1,
             "judged": True, "why": why, "cls": f"silent {kind}" if msgs else None,
             "case": {"name": name, "kind": kind, "pos": pos, "text": text}}
@@ -122,6 +141,14 @@ def cli_case(job):
     env = dict(os.environ, CMINXDIR=os.path.join(root, "cfg"), HOME=root, XDG_CONFIG_HOME=os.path.join(root, "cfg"))
     msgs = []
     code = CLI % common.REPO_SRC
+    with open(os.path.join(root, "debug.yaml"), "w") as f:
+        f.write("logging:\n  handlers:\n    console:\n      level: DEBUG\n")
+    p0 = subprocess.run([common.PYTHON, "-c", code, "-s", os.path.join(root, "debug.yaml"), "-o", os.path.join(root, "out0"),
+                         os.path.join(root, "in", "bad.cmake")], capture_output=True, text=True, env=env, cwd=root)
+    if p0.returncode == 0 or os.path.exists(os.path.join(root, "out0", "bad.rst")):
+        msgs.append(f"silent-cli: `cminx -s debug-logging.yaml -o out bad.cmake` exits {p0.returncode} "
+                    f"{'and wrote bad.rst ' if os.path.exists(os.path.join(root, 'out0', 'bad.rst')) else ''}"
+                    f"for {kind} at offset {pos} of {name}")
     p1 = subprocess.run([common.PYTHON, "-c", code, "-o", os.path.join(root, "out1"), os.path.join(root, "in", "bad.cmake")],
                         capture_output=True, text=True, env=env, cwd=root)
     if p1.returncode == 0:
@@ -141,7 +168,7 @@ def cli_case(job):
     if os.path.exists(os.path.join(root, "out3", "bad.rst")):
         msgs.append(f"silent-cli: `cminx -o out dir` (not recursive) wrote bad.rst for {kind} at offset {pos} of {name}")
     shutil.rmtree(root, ignore_errors=True)
-    return {"viol": msgs, "obs": common.digest([p1.returncode, p2.returncode, p3.returncode]), "nt": common.digest(text), "n": 3,
+    return {"viol": msgs, "obs": common.digest([p1.returncode, p2.returncode, p3.returncode]), "nt": common.digest(text), "n": 4,
             "cls": f"silent-cli {kind}" if msgs else None, "case": {"name": name, "kind": kind, "pos": pos, "text": text, "cli": True}}
 
 
